@@ -8,6 +8,10 @@ _FP_IN = {"get_buffered_data": "c15_in_get", "advance_buffer": "c15_in_advance",
           "get_filename": "c15_in_filename", "process_data": "c15_process_data"}
 
 
+_FP_OUT = {"process_data": "c15_process_data", "append": "c15_out_append",
+           "flush": "c15_out_flush", "get_filename": "c15_out_filename"}
+
+
 def _h(name, loops=None, **kw):
     d = dict(name=name, file=name + ".c", label="proved", solver="cadical",
              timeout=300)
@@ -17,10 +21,21 @@ def _h(name, loops=None, **kw):
     return d
 
 
+def _calls(quick, thorough):
+    return [dict(id="calls%d" % quick, defines={"CALLS": quick}, unwind=quick + 1,
+                 tier="quick"),
+            dict(id="calls%d" % thorough, defines={"CALLS": thorough},
+                 unwind=thorough + 1, tier="thorough",
+                 label="bounded(codec calls per precache <= %d)" % thorough)]
+
+
 HARNESSES = [
-    # for (;;) cannot carry a loop contract in cbmc 6.11 -> unwound, bounded
-    _h("in_precache", fp=_FP_IN, timeout=300, label="bounded(codec calls per precache <= 3)",
-       cases=[dict(id="calls3", defines={"CALLS": 3}, unwind=4, tier="quick"),
-              dict(id="calls5", defines={"CALLS": 5}, unwind=6, tier="thorough",
-                   label="bounded(codec calls per precache <= 5)")]),
+    # xfrm/istream.c: the refill loop is `for (;;)`, which cannot carry a loop
+    # contract in cbmc 6.11 -> unwound, bounded number of codec calls
+    _h("in_precache", fp=_FP_IN, label="bounded(codec calls per precache <= 3)",
+       cases=_calls(3, 5)),
+    _h("in_get", fp=_FP_IN, label="bounded(codec calls per precache <= 3)",
+       cases=_calls(3, 5)),
+    _h("in_advance", fp=_FP_IN),
+    _h("out_flush_inbuf", ["flush_inbuf"], fp=_FP_OUT),
 ]
